@@ -224,7 +224,7 @@ ARGS_LOOP:
 							}
 						}
 						// The entry is complete here and has suggestions
-						if strings.Contains(partialOption, "=") && strings.HasPrefix(partialOption, k) {
+						if strings.HasPrefix(partialOption, k+"=") {
 							lastOpt = v
 							if lastOpt.SuggestedValues != nil && len(lastOpt.SuggestedValues) > 0 {
 								for _, e := range lastOpt.SuggestedValues {
